@@ -100,28 +100,38 @@ Indep(src, k, r) == /\ src \in 1..Len(tix)
 
 ---------------------------------------------------------------------------
 (* Forged client sessions.  A ClientSessionState built by                  *)
-(* MakeClientSessionState(ticket, vers, suite, secret, ...) is offered to a *)
+(* MakeClientSessionState(ticket, vers, suite, secret, ...) - or by the    *)
+(* constructor followed by SetMasterSecret(secret) - is offered to a       *)
 (* server whose ticket keys are known.  p describes what was supplied:     *)
-(*   vers, suite, secret  the values given to MakeClientSessionState       *)
+(*   vers, suite, secret  the values given to the constructor / setter     *)
 (*   ems                  SetEMS value; tems/tsecret/tvers/tsuite: what the*)
 (*                        ticket handed to the server says                 *)
 (*   sealed               ticket sealed with a key the server has          *)
 (*   offersEMS            the ClientHello carries extended_master_secret   *)
-(* o is what both ends reported.                                           *)
+(* o is what both ends reported.  For TLS 1.2 and below the secret is the  *)
+(* master secret (both ends report the one they ended up with); for TLS 1.3*)
+(* it is the resumption PSK, whose only witness is the PSK binder: the     *)
+(* server resumes iff the client computed the binder from the very bytes   *)
+(* the ticket holds (handshake_server_tls13.go checkForResumption).        *)
+TLS13 == 772
+\* the accessor: ClientSessionState.MasterSecret() returns the supplied bytes, whatever their length
+SecretKept(supplied, got) == got = supplied
+
 TicketAccepted(p) == /\ p.sealed
                      /\ p.tvers = p.vers /\ p.tsuite = p.suite
-                     /\ p.tems = p.offersEMS                \* handshake_server.go checkForResumption
+                     /\ p.vers = TLS13 \/ p.tems = p.offersEMS      \* handshake_server.go checkForResumption
 Completed(o) == o.cerr = "" /\ o.serr = ""
 \* the property: whatever else happens, a connection that resumed carries exactly the supplied parameters
 ResumedCarriesSupplied(p, o) ==
     (Completed(o) /\ o.cresumed) => /\ o.sresumed
                                     /\ o.cvers = p.vers /\ o.svers = p.vers
                                     /\ o.csuite = p.suite /\ o.ssuite = p.suite
-                                    /\ o.cmaster = p.secret /\ o.smaster = p.secret
+                                    /\ p.vers = TLS13 \/ (o.cmaster = p.secret /\ o.smaster = p.secret)
 \* and the outcome classes of the model
 ForgeOutcome(p, o) ==
     /\ ResumedCarriesSupplied(p, o)
-    /\ (TicketAccepted(p) /\ p.tsecret = p.secret /\ p.ems = p.tems) => (Completed(o) /\ o.cresumed)   \* consistent forgery resumes
-    /\ (TicketAccepted(p) /\ p.tsecret # p.secret) => ~Completed(o)                                    \* keys differ: Finished fails
+    /\ (TicketAccepted(p) /\ p.tsecret = p.secret /\ (p.vers = TLS13 \/ p.ems = p.tems))
+          => (Completed(o) /\ o.cresumed /\ o.sresumed)                                               \* consistent forgery resumes
+    /\ (TicketAccepted(p) /\ p.tsecret # p.secret) => ~Completed(o)                                    \* keys differ: Finished / binder fails
     /\ ~p.sealed => (Completed(o) /\ ~o.cresumed /\ ~o.sresumed /\ o.cmaster # p.secret)                \* unknown key: full handshake
 =============================================================================
